@@ -66,9 +66,6 @@ for fn_, a_ in (("shift_left_small", "Shl"), ("shift_right_small", "Shr")):
         "a shift). Accepted for the kernel as an entry point; carried to callers as the guard amount >= 64, which every "
         "caller's intervals must refute. Matched by structure: an overflow-checked shift whose amount is parameter 2",
         entry_precondition=True, what_re=r"Overflow\(%s:.*\)" % a_, requires=[{"amount_param": 2}])
-    row("crate::algorithms::shift::%s" % fn_, "assert:Overflow", "Overflow(Sub:64,amount)",
-        "64 - amount: same documented precondition amount < 64 (the subtraction wraps only for amount > 64)",
-        entry_precondition=True, what_re=r"Overflow\(Sub:64,.*\)", requires=[{"amount_param": 2}])
 
 if __name__ == "__main__":
     out = os.path.join(os.path.dirname(os.path.dirname(os.path.abspath(__file__))), "overflow.json")
